@@ -15,6 +15,11 @@ with the root logger at DEBUG (first 8 per case, and every whole-catalogue / mas
 the identical array (`logging_level_changes_model`); a share of the model / mask / files cases runs entirely at DEBUG
 and the AeRes command line is also driven with --debug, judged by the ordinary clauses.
 
+WCS forms: besides rotation-free CDELT/CD headers, pixel grids rotated by 37..271 deg written as CD matrix, PC + CDELT or
+CROTA2 (the oracle always gets the equivalent CD matrix), and RA---TAN-SIP headers with a conformal quadratic distortion of
+0.04-0.10 px at the far corner and sources of at most 1.4 beams (oracle: SipZenithal = SIP forward polynomial + ZenithalWCS); both cross-checked against
+astropy.wcs at start-up; those catalogues put a source near each of the four corners and each of the four edges.
+
 Coordinates: numpy index (i, j) = (row, column), 0-based; the image area is [-0.5, n-0.5] on each axis.
 The C16 contracts on WCSHelper are armed during every case (their records are prefixed `c16_`).
 """
@@ -54,7 +59,10 @@ MIN_COUNTERS = {'sources_compared_with_render': 300, 'sources_in_last_half_pixel
                 'mask_files_via_cli': 1, 'files_checked_integer_input': 12, 'files_checked_integer_input_bscale': 4,
                 'mask_files_integer_input': 4, 'restorations_checked_integer_input': 2,
                 'cases_at_debug_logging': 8, 'cases_at_debug_logging_model': 4, 'cases_at_debug_logging_files': 2,
-                'logging_level_pairs_compared': 100, 'cli_runs_with_debug': 3, 'cli_runs_with_debug_effective': 3}
+                'logging_level_pairs_compared': 100, 'cli_runs_with_debug': 3, 'cli_runs_with_debug_effective': 3,
+                'rotated_grid_cases': 10, 'rotated_grid_cases_cd': 6, 'rotated_grid_cases_pc': 1, 'rotated_grid_cases_crota': 1,
+                'rotated_grid_sources_compared': 60, 'rotated_grid_files_checked': 8, 'corner_and_edge_catalogues': 10,
+                'sip_cases': 4, 'sip_sources_compared': 20, 'sip_files_checked': 4, 'sip_far_source_catalogues': 1}
 
 TOL_MODEL = 1e-4        # of |peak|, statement
 TOL_LOOP = 1e-3         # of |peak|, statement
@@ -81,6 +89,150 @@ class _Prefixed:
 
     def violate(self, clause, witness, mechanism=None):
         self._o.violate(self._p + clause, witness, mechanism)
+
+
+# ----------------------------------------------------------------------------- rotated grids and SIP distortion
+def _rotate_header(hdr, cdelt, rot_deg, form):
+    """rotate the pixel grid of a rotation-free header by rot_deg.  Returns (header for Aegean, CD-form header for the
+    oracle): form 'cd' writes the CD matrix, 'pc' CDELT + PCi_j, 'crota' CDELT + CROTA2 (FITS paper II, eq. 188-189)."""
+    c, s_ = float(np.cos(np.radians(rot_deg))), float(np.sin(np.radians(rot_deg)))
+    cd = [[cdelt[0] * c, -cdelt[1] * s_], [cdelt[0] * s_, cdelt[1] * c]]
+    base = hdr.copy()
+    for k in ('CDELT1', 'CDELT2', 'CD1_1', 'CD1_2', 'CD2_1', 'CD2_2'):
+        if k in base:
+            del base[k]
+    hcd = base.copy()
+    hcd['CD1_1'], hcd['CD1_2'], hcd['CD2_1'], hcd['CD2_2'] = cd[0][0], cd[0][1], cd[1][0], cd[1][1]
+    if form == 'cd':
+        return hcd.copy(), hcd
+    h = base.copy()
+    h['CDELT1'], h['CDELT2'] = float(cdelt[0]), float(cdelt[1])
+    if form == 'pc':
+        # CD = diag(CDELT) . PC
+        h['PC1_1'], h['PC1_2'] = c, -cdelt[1] * s_ / cdelt[0]
+        h['PC2_1'], h['PC2_2'] = cdelt[0] * s_ / cdelt[1], c
+    elif form == 'crota':
+        h['CROTA2'] = float(rot_deg)
+    else:
+        raise ValueError(form)
+    return h, hcd
+
+
+class SipZenithal(wz.ZenithalWCS):
+    """ZenithalWCS preceded by the SIP forward polynomial (pixel offsets u, v from CRPIX -> u + sum A_pq u^p v^q,
+    v + sum B_pq u^p v^q, then the CD matrix and the projection).  sky -> pixel inverts the polynomial by fixed-point
+    iteration; AP/BP are not used."""
+
+    def __init__(self, header):
+        h = header.copy()
+        h['CTYPE1'] = str(h['CTYPE1'])[:-4]
+        h['CTYPE2'] = str(h['CTYPE2'])[:-4]
+        if not (str(header['CTYPE1']).endswith('-SIP') and str(header['CTYPE2']).endswith('-SIP')):
+            raise ValueError('not a SIP header')
+        wz.ZenithalWCS.__init__(self, h)
+        self.A = {(p_, q): float(header['A_%d_%d' % (p_, q)]) for p_ in range(4) for q in range(4)
+                  if 'A_%d_%d' % (p_, q) in header}
+        self.B = {(p_, q): float(header['B_%d_%d' % (p_, q)]) for p_ in range(4) for q in range(4)
+                  if 'B_%d_%d' % (p_, q) in header}
+
+    def _poly(self, u, v):
+        f = sum(a * u ** p_ * v ** q for (p_, q), a in self.A.items())
+        g = sum(b * u ** p_ * v ** q for (p_, q), b in self.B.items())
+        return f, g
+
+    def pix2sky(self, p1, p2):
+        u = np.asarray(p1, dtype=float) - self.crpix[0]
+        v = np.asarray(p2, dtype=float) - self.crpix[1]
+        f, g = self._poly(u, v)
+        return wz.ZenithalWCS.pix2sky(self, u + f + self.crpix[0], v + g + self.crpix[1])
+
+    def sky2pix(self, ra, dec):
+        q1, q2 = wz.ZenithalWCS.sky2pix(self, ra, dec)
+        U = np.asarray(q1, dtype=float) - self.crpix[0]
+        V = np.asarray(q2, dtype=float) - self.crpix[1]
+        u, v = U, V
+        for _ in range(40):
+            f, g = self._poly(u, v)
+            u, v = U - f, V - g
+        return u + self.crpix[0], v + self.crpix[1]
+
+
+def _sip_header(hdr, c1, c2):
+    """conformal quadratic distortion f + i g = (c1 + i c2) (u + i v)^2: a sky ellipse stays, to first order, an ellipse
+    with perpendicular axes on the pixel grid (what AeRes draws)"""
+    h = hdr.copy()
+    h['CTYPE1'] = str(h['CTYPE1']) + '-SIP'
+    h['CTYPE2'] = str(h['CTYPE2']) + '-SIP'
+    h['A_ORDER'] = 2
+    h['B_ORDER'] = 2
+    h['A_2_0'], h['A_1_1'], h['A_0_2'] = c1, -2 * c2, -c1
+    h['B_2_0'], h['B_1_1'], h['B_0_2'] = c2, 2 * c1, -c2
+    return h
+
+
+_WCS_FORMS_CHECKED = False
+
+
+def selfcheck_wcs_forms():
+    """once per process: the oracle's WCS for rotated CD / PC / CROTA2 headers and for SIP headers against
+    astropy.wcs (all_pix2world).  A failure is an oracle fault (harness error), never a violation."""
+    global _WCS_FORMS_CHECKED
+    if _WCS_FORMS_CHECKED:
+        return
+    import warnings
+    from astropy.wcs import WCS
+    worst = 0.0
+    p1, p2 = np.meshgrid(np.linspace(-5, 200, 6), np.linspace(-8, 170, 6))
+    pix = np.column_stack([p1.ravel(), p2.ravel()])
+    with warnings.catch_warnings():
+        warnings.simplefilter('ignore')
+        for t, rot in enumerate((40.0, 60.0, 85.0, 120.0, -150.0, 271.3)):
+            proj = wz.PROJECTIONS[t % 5]
+            cdelt = ((-1) ** t * 6.0 / 3600, 5.0 / 3600)
+            base = wz.make_header(proj, CRVALS[t % len(CRVALS)], (90.3, 70.1), cdelt, (160, 190), use_cd=False)
+            for form in ('cd', 'pc', 'crota'):
+                h, hcd = _rotate_header(base, cdelt, rot, form)
+                sky = WCS(h, naxis=2).all_pix2world(pix, 1)
+                ra, dec = wz.ZenithalWCS(hcd).pix2sky(pix[:, 0], pix[:, 1])
+                worst = max(worst, float(np.max(sphere.sep(sky[:, 0], sky[:, 1], ra, dec))))
+        base = wz.make_header('TAN', (201.3, 27.4), (90.3, 70.1), (-4.0 / 3600, 4.0 / 3600), (160, 190), use_cd=True)
+        for c1, c2 in ((0.5e-5, -0.3e-5), (-1.2e-5, 0.8e-5)):
+            h = _sip_header(base, c1, c2)
+            z = SipZenithal(h)
+            sky = WCS(h, naxis=2).all_pix2world(pix, 1)
+            ra, dec = z.pix2sky(pix[:, 0], pix[:, 1])
+            worst = max(worst, float(np.max(sphere.sep(sky[:, 0], sky[:, 1], ra, dec))))
+            q1, q2 = z.sky2pix(ra, dec)
+            worst = max(worst, float(np.max(np.hypot(q1 - pix[:, 0], q2 - pix[:, 1]))) * 4.0 / 3600)
+            plain = wz.ZenithalWCS(base).pix2sky(pix[:, 0], pix[:, 1])
+            if not np.max(sphere.sep(plain[0], plain[1], ra, dec)) > 1e-6:
+                raise RuntimeError('oracle fault: the SIP self-check header is not distorted')
+    if not worst < 1e-10:
+        raise RuntimeError('oracle fault: rotated/SIP WCS of the oracle disagrees with astropy.wcs by %g deg' % worst)
+    _WCS_FORMS_CHECKED = True
+
+
+def _corner_edge_sources(rng, z, shape, scale_as, compact=False):
+    """one source 2-6 px inside each of the four corners and one within 3 px of each of the four edges"""
+    rows, cols = shape
+    beam = 4.0 * scale_as
+    pos = []
+    for ci in (0, 1):
+        for cj in (0, 1):
+            di, dj = float(rng.uniform(2.0, 6.0)), float(rng.uniform(2.0, 6.0))
+            pos.append((di if ci == 0 else rows - 1 - di, dj if cj == 0 else cols - 1 - dj))
+    d = [float(rng.uniform(0.0, 3.0)) for _ in range(4)]
+    pos += [(d[0], float(rng.uniform(8, cols - 9))), (rows - 1 - d[1], float(rng.uniform(8, cols - 9))),
+            (float(rng.uniform(8, rows - 9)), d[2]), (float(rng.uniform(8, rows - 9)), cols - 1 - d[3])]
+    out = []
+    for k, (i, j) in enumerate(pos):
+        ra, dec = z.index2sky(i, j)
+        a = beam * float(rng.uniform(1.0, 1.4 if compact else 4.0))
+        b = max(a * float(rng.uniform(0.4, 1.0)), 3.0 * scale_as * 1.02)
+        a = max(a, b)
+        out.append({'ra': float(ra), 'dec': float(dec), 'peak': float(10 ** rng.uniform(-1, 1)) * (1.0 if k % 3 else -1.0),
+                    'a': float(a), 'b': float(b), 'pa': _pa(rng), 'stratum': 'corner' if k < 4 else 'edge3'})
+    return out
 
 
 # ----------------------------------------------------------------------------- case generation
@@ -205,6 +357,46 @@ def cases(seed, tier):
             c['debug_logging' if t % 2 == 0 else 'cli_debug'] = True     # whole case at DEBUG / only the CLI's --debug
             c.update(_header_params(rng, 1400 + t + 5 * rep, proj))
             out.append(c)
+    # rotated pixel grids (CD matrix, PC + CDELT, CROTA2) with sources near all four corners and edges; appended last
+    rots = [40.0, 60.0, 85.0, 120.0, -150.0, 37.0, 271.3, 179.0]
+    forms = ['cd', 'cd', 'cd', 'cd', 'pc', 'crota', 'cd', 'pc']
+    for rep in range(1 if q else 4):
+        for t, rot in enumerate(rots):
+            rng = rng_for(seed, 'c14rot', t, rep)
+            if rep:
+                rot = float(rng.uniform(-180, 180))
+            c = {'kind': 'model', 'corners': True, 'nsrc': int(rng.integers(2, 9)), 'cd_rot': rot, 'rot_form': forms[(t + rep) % 8],
+                 'seed': [seed, 'rot-model', t, rep]}
+            c.update(_header_params(rng, 1500 + t + 8 * rep, wz.PROJECTIONS[(t + rep) % 5]))
+            c['use_cd'] = False
+            out.append(c)
+        for t, rot in enumerate([60.0, 120.0, 85.0]):
+            rng = rng_for(seed, 'c14rotfiles', t, rep)
+            c = {'kind': ('files', 'files', 'mask')[t], 'fmt': fmts[(t + rep) % 3], 'nsrc': int(rng.integers(6, 20)),
+                 'mode': ('frac', 'sigma')[rep % 2], 'sigma': 4.0, 'mask_via_cli': bool(t == 1),
+                 'cd_rot': rot if rep == 0 else float(rng.uniform(40, 140)), 'rot_form': 'cd',
+                 'seed': [seed, 'rot-files', t, rep]}
+            c.update(_header_params(rng, 1600 + t + 3 * rep, wz.PROJECTIONS[(t + 2 * rep) % 5]))
+            c['use_cd'] = False
+            out.append(c)
+    # SIP distortion (RA---TAN-SIP, conformal quadratic, 0.04-0.10 px at the far corner), compact sources: the pixel-plane
+    # Gaussian AeRes draws equals the sky Gaussian only to first order in the distortion across the source; the second-order
+    # term is ~2.3 * |C| * sigma_px of the peak (measured), kept below 3e-5 by |C| <= 3.5e-6 /px and FWHM <= 1.4 beams
+    for t in range(4 if q else 16):
+        rng = rng_for(seed, 'c14sip', t)
+        c = {'kind': 'files' if t % 4 == 3 else 'model', 'corners': True, 'nsrc': int(rng.integers(2, 9)), 'fmt': fmts[t % 3],
+             'sigma': 4.0, 'mask_via_cli': False, 'seed': [seed, 'sip', t]}
+        c.update(_header_params(rng, 1700 + t, 'TAN'))
+        c['use_cd'] = True
+        rr = np.hypot(max(c['crpix'][0], c['shape'][1] - c['crpix'][0]), max(c['crpix'][1], c['shape'][0] - c['crpix'][1]))
+        amp = float(rng.uniform(0.04, 0.10)) / float(rr) ** 2
+        ang = float(rng.uniform(0, 2 * np.pi))
+        c['sip'] = [float(amp * np.cos(ang)), float(amp * np.sin(ang))]
+        out.append(c)
+        if t % 4 == 0:
+            # the same image with catalogue positions far from it (kept apart so that the other SIP judgements survive)
+            c2 = dict(c, kind='model', nsrc=2, sip_far=True, seed=[seed, 'sip-far', t])
+            out.append(c2)
     return out
 
 
@@ -317,7 +509,11 @@ def _mech_dropped(i, j, shape):
 
 
 def _hdr_witness(case):
-    return {k: case[k] for k in ('proj', 'crval', 'crpix', 'cdelt', 'shape', 'use_cd')}
+    w = {k: case[k] for k in ('proj', 'crval', 'crpix', 'cdelt', 'shape', 'use_cd')}
+    for k in ('cd_rot', 'rot_form', 'sip'):
+        if case.get(k) is not None:
+            w[k] = case[k]
+    return w
 
 
 # ----------------------------------------------------------------------------- run
@@ -337,7 +533,25 @@ def run(case):
         hdr = wz.make_header(case['proj'], tuple(case['crval']), tuple(case['crpix']), tuple(case['cdelt']), shape,
                              beam=(beam_deg, beam_deg * 0.8, 15.0), use_cd=case['use_cd'])
         z = wz.ZenithalWCS(hdr)
-        helper = wcs_helpers.WCSHelper.from_header(hdr)
+        if case.get('cd_rot') is not None or case.get('sip'):
+            selfcheck_wcs_forms()
+        if case.get('cd_rot') is not None:
+            # rotated pixel grid: Aegean gets the CD / PC / CROTA2 header, the oracle the equivalent CD matrix
+            hdr, hcd = _rotate_header(hdr, tuple(case['cdelt']), float(case['cd_rot']), case.get('rot_form', 'cd'))
+            z = wz.ZenithalWCS(hcd)
+            o.count('rotated_grid_cases')
+            o.count('rotated_grid_cases_' + case.get('rot_form', 'cd'))
+            o.see('grid_rotation_deg', float(case['cd_rot']))
+        if case.get('sip'):
+            hdr = _sip_header(hdr, float(case['sip'][0]), float(case['sip'][1]))
+            z = SipZenithal(hdr)
+            o.count('sip_cases')
+            rr = np.hypot(max(case['crpix'][0], shape[1] - case['crpix'][0]), max(case['crpix'][1], shape[0] - case['crpix'][1]))
+            o.worst('sip_distortion_at_far_corner_px', float(np.hypot(*case['sip'])) * rr ** 2)
+        import warnings
+        with warnings.catch_warnings():
+            warnings.simplefilter('ignore')
+            helper = wcs_helpers.WCSHelper.from_header(hdr)
         rng = rng_for(*case['seed'])
         o.see('projection', case['proj'])
         kind = case['kind']
@@ -367,6 +581,12 @@ def run(case):
         else:
             raise ValueError(kind)
         o.count('c16_evaluations', p16.n_eval)
+        if case.get('cd_rot') is not None:
+            o.count('rotated_grid_sources_compared', o.counters.get('sources_compared_with_render', 0))
+            o.count('rotated_grid_files_checked', o.counters.get('files_checked', 0))
+        if case.get('sip'):
+            o.count('sip_sources_compared', o.counters.get('sources_compared_with_render', 0))
+            o.count('sip_files_checked', o.counters.get('files_checked', 0))
         return o.result()
     finally:
         c16.set_obs(None)
@@ -437,8 +657,23 @@ def _model_of_plain(AeRes, o, comps, shape, helper, what, **kw):
     except Exception as e:
         o.n_eval += 1
         o.violate('raises', {'where': 'AeRes.make_model ' + what, 'exc': repr(e), 'tb': traceback.format_exc()[-800:],
-                             'sources': [[c.ra, c.dec, c.peak_flux, c.a, c.b, c.pa] for c in comps][:5]})
+                             'sources': [[c.ra, c.dec, c.peak_flux, c.a, c.b, c.pa] for c in comps][:5]},
+                  _mech_model_raises(e, helper, comps))
         return None
+
+
+def _mech_model_raises(e, helper, comps):
+    """predicate over the witness: astropy's iterative all_world2pix raises NoConvergence for a catalogue position far
+    from the image when the header carries SIP terms (without them the closed-form inverse returns NaN silently)"""
+    try:
+        sip = getattr(helper.wcs, 'sip', None) is not None
+        crval = helper.wcs.wcs.crval
+        far = any(float(sphere.sep(crval[0], crval[1], c.ra, c.dec)) > 5.0 for c in comps)
+    except Exception:
+        return None
+    if type(e).__name__ == 'NoConvergence' and sip and far:
+        return 'sip-far-source-noconvergence'
+    return None
 
 
 def _run_model(case, o, rng, z, helper, shape, scale_as, AeRes, models):
@@ -467,6 +702,26 @@ def _run_model(case, o, rng, z, helper, shape, scale_as, AeRes, models):
             s_['ra'], s_['dec'] = float(ra), float(dec)
         o.count('shared_shape_catalogues')
         o.count('shared_shape_sources', len(srcs))
+    elif case.get('corners'):
+        # rotated grids / SIP: sources near all four corners and all four edges first, then the ordinary strata
+        compact = bool(case.get('sip'))
+        srcs = _corner_edge_sources(rng, z, shape, scale_as, compact=compact)
+        srcs += _catalogue(rng, z, shape, scale_as, case['nsrc'],
+                           ['interior', 'edge3', 'off', 'last_half', 'interior', 'off' if compact else 'far'])
+        if case.get('sip_far'):
+            # catalogue positions far from a SIP image (5, 30, 95 deg away and the antipode): must be ignored without error
+            for dist, th in ((5.5, 40.0), (30.0, 200.0), (95.0, 310.0), (180.0, 0.0)):
+                ra, dec = sphere.destination(z.crval[0], z.crval[1], dist, th)
+                srcs.append({'ra': float(ra), 'dec': float(dec), 'peak': 1.0, 'a': 4.0 * scale_as, 'b': 4.0 * scale_as, 'pa': 0.0,
+                             'stratum': 'far'})
+            o.count('sip_far_source_catalogues')
+        if compact:
+            # the 1e-4 comparison holds to first order in the distortion across a source: keep the sources compact
+            beam = 4.0 * scale_as
+            for s_ in srcs:
+                s_['a'] = min(s_['a'], 1.4 * beam)
+                s_['b'] = min(s_['b'], s_['a'])
+        o.count('corner_and_edge_catalogues')
     else:
         strata = ['interior', 'edge3', 'last_half', 'off', 'ring', 'interior', 'edge3', 'off', 'last_half', 'far']
         n = case['nsrc']
@@ -722,6 +977,11 @@ def _cli_mask(o, wit, img, cat, rfile, sigma, debug=False):
 def _run_files(case, o, rng, z, hdr, shape, scale_as, AeRes, tmp):
     from astropy.io import fits
     srcs = _mask_sources(rng, z, shape, scale_as, case['nsrc'])          # positive, no ring sources
+    if case.get('sip'):
+        srcs = [dict(s_, peak=abs(s_['peak'])) for s_ in _corner_edge_sources(rng, z, shape, scale_as, compact=True)] + srcs
+        for s_ in srcs:                                                  # compact sources (see the SIP cases)
+            s_['a'] = min(s_['a'], 1.4 * 4.0 * scale_as)
+            s_['b'] = min(s_['b'], s_['a'])
     fmt = case['fmt']
     sigma = float(case.get('sigma', 4.0))
     o.see('mask_sigma_through_make_residual', sigma)
